@@ -165,6 +165,7 @@ Inductive pop_op :=
 | Round (draws : list (nat * T))       (* one Mutations.mutation call                           *)
 | MutOne (i k : nat) (u : T)           (* rl_hyperparam_mutation on individual i only            *)
 | Clone (src dst : nat)                (* population[dst] = population[src].clone()              *)
+| Learn (i : nat)                      (* agent.learn(batch): touches no hyperparameter, optimizer lr or label *)
 | OtherMut (i : nat).                  (* architecture / parameter / activation mutation of individual i:
                                           hyperparameters are not touched, reinit_opt(individual) re-creates
                                           EVERY optimizer with its own lr attribute; the label is not modelled *)
@@ -188,6 +189,7 @@ Definition pop_step (pop : list agent) (o : pop_op) : list agent :=
   | Clone s d => match nth_error pop s with
                  | Some a => upd_nth pop d a        (* deep copy: same values, own registry *)
                  | None => pop end
+  | Learn _ => pop
   | OtherMut i => match nth_error pop i with
                   | Some a => upd_nth pop i (other_mutation a)
                   | None => pop end
@@ -202,6 +204,10 @@ Definition has_attr (vals : list (name * T)) (n : name) : bool :=
 
 Fixpoint nodupb (l : list name) : bool :=
   match l with [] => true | x :: r => negb (existsb (Nat.eqb x) r) && nodupb r end.
+
+(* _registry_init: every configured hyperparameter must be an attribute, else AttributeError *)
+Definition registry_init_ok (vals : list (name * T)) (hps : list hpent) : bool :=
+  forallb (fun h => has_attr vals (hp_name h)) hps.
 
 Definition wf_agent (a : agent) : bool :=
   forallb (fun h => has_attr (a_vals a) (hp_name h)) (a_hps a)      (* _registry_init *)
@@ -251,13 +257,13 @@ Arguments Build_param {T}.
 Arguments Build_hpent {T}.
 Arguments Build_optim {T}.
 Arguments Build_agent {T}.
-Arguments Round {T}. Arguments MutOne {T}. Arguments Clone {T}. Arguments OtherMut {T}.
+Arguments Round {T}. Arguments MutOne {T}. Arguments Clone {T}. Arguments OtherMut {T}. Arguments Learn {T}.
 Arguments p_min {T}. Arguments p_max {T}. Arguments p_shrink {T}. Arguments p_grow {T}. Arguments p_int {T}.
 Arguments hp_name {T}. Arguments hp_par {T}. Arguments hp_cache {T}.
 Arguments o_cfg_lr {T}. Arguments o_lr_name {T}. Arguments o_wlr {T}. Arguments o_groups {T}.
 Arguments a_vals {T}. Arguments a_hps {T}. Arguments a_opts {T}. Arguments a_mut {T}.
 Arguments getv {T}. Arguments setv {T}. Arguments set_cache {T}. Arguments has_attr {T}.
-Arguments wf_agent {T}. Arguments with_hps {T}.
+Arguments wf_agent {T}. Arguments with_hps {T}. Arguments registry_init_ok {T}.
 
 (* ------------------------------------------------------------------------------------------ *)
 (* instance 1: exact rationals (theorems)                                                      *)
